@@ -85,6 +85,25 @@ def make_service(gen, methods, seen):
             kw['_returns'] = gen.cls(m['ret']) if isinstance(m['ret'], dict) else tuple(gen.cls(r) for r in m['ret'])
         kw.update(m.get('kw', {}))
         ret = m.get('returns')
+        if m.get('in_header') or m.get('out_header'):
+            # a method with SOAP headers needs its context: @rpc, first parameter ctx
+            from spyne import rpc
+            if m.get('in_header'):
+                kw['_in_header'] = tuple(gen.cls(t) for t in m['in_header'])
+            if m.get('out_header'):
+                kw['_out_header'] = tuple(gen.cls(t) for t in m['out_header'])
+
+            def hbody(ctx, args, m=m, ret=ret):
+                seen.append((m['name'], list(args), ctx.in_header))
+                oh = m.get('out_header_values')
+                if oh is not None:
+                    ctx.out_header = oh()
+                return ret(list(args)) if ret else None
+            src = 'def %s(ctx, %s):\n    return body(ctx, [%s])\n' % (m['name'], ', '.join(names), ', '.join(names))
+            ns = {'body': hbody}
+            exec(src, ns)
+            d[m['name']] = rpc(*argt, **kw)(ns[m['name']])
+            continue
 
         def body(args, m=m, ret=ret):
             seen.append((m['name'], list(args)))
